@@ -4,7 +4,7 @@
     tail calls, and apply re-entering it) is sound for those rules, errors and the state
     reached included. *)
 From Coq Require Import List.
-From RV Require Import Model.Common Model.Ast Model.Value Model.Builtins Model.Eval Spec.EvalSpec Proofs.EvalProofs.
+From RV Require Import Model.Common Model.Ast Model.Value Model.Builtins Model.Eval Spec.EvalSpec Proofs.EvalProofs Proofs.FuelProofs Proofs.FailProofs.
 Import ListNotations.
 
 (** an error (with the state in which it was raised) is reported only where the rules raise it *)
@@ -46,3 +46,27 @@ Theorem C08_state_grows : forall st env e r st',
   ev st env e r st' ->
   length (frames st) <= length (frames st') /\ length (vectors st) <= length (vectors st').
 Proof. exact ev_state_grows. Qed.
+
+(** detection is complete: whenever the rules fault an expression - whatever the nesting and the
+    calling context of the faulting operation - the evaluator, for every sufficiently large fuel,
+    answers with a failure and has reached exactly the state the rules give (the effects completed
+    before the fault, nothing else) *)
+Theorem C08_failure_complete : forall st env e r st', ev st env e r st' -> failed r ->
+  exists r', failed r' /\ exists n, forall fuel, n <= fuel -> eval_expr fuel e env st = (r', st').
+Proof. exact ev_failure_complete. Qed.
+
+(** never an invented value: any answer short of a timeout for an expression the rules fault is a
+    failure, in the state of the rules *)
+Theorem C08_failure_detected : forall fuel e env st r1 st1 r st',
+  eval_expr fuel e env st = (r1, st1) -> noF r1 -> ev st env e r st' -> failed r ->
+  failed r1 /\ st1 = st'.
+Proof. exact failure_detected. Qed.
+
+(** the rules themselves never assign both a value and a failure, and every failure they assign to
+    an expression is reached in the same state *)
+Theorem C08_value_excludes_failure : forall st env e v st1 r st2,
+  ev st env e (Ok v) st1 -> ev st env e r st2 -> failed r -> False.
+Proof. exact ev_value_excludes_failure. Qed.
+Theorem C08_failure_state_unique : forall st env e r1 st1 r2 st2,
+  ev st env e r1 st1 -> failed r1 -> ev st env e r2 st2 -> failed r2 -> st1 = st2.
+Proof. exact ev_failure_state_unique. Qed.
